@@ -242,6 +242,11 @@ func visitInstr(fr *frame, instr ssa.Instruction) continuation {
 
 	case *ssa.UnOp:
 		x := fr.get(instr.X)
+		if instr.Op == token.MUL && fr.i.ex != nil && fr.i.ex.StoreMon != nil {
+			if p, ok := x.(*value); ok {
+				fr.i.ex.StoreMon.onAccess(fr, p, "load")
+			}
+		}
 		if _, ok := x.(symVal); ok {
 			fr.env[instr] = fr.i.symUnop(instr.Op, x)
 		} else {
@@ -656,7 +661,7 @@ func callSSA(i *interpreter, caller *frame, callpos token.Pos, fn *ssa.Function,
 		panic("interp requires ssa.BuilderMode to include InstantiateGenerics to execute generics")
 	}
 
-	fr.env = make(map[ssa.Value]value)
+	fr.env = make(map[ssa.Value]value, envSizeHint(fn))
 	fr.block = fn.Blocks[0]
 	fr.locals = make([]value, len(fn.Locals))
 	for i, l := range fn.Locals {
@@ -892,4 +897,22 @@ func Interpret(mainpkg *ssa.Package, mode Mode, sizes types.Sizes, filename stri
 		exitCode = 1
 	}
 	return
+}
+
+var envHints = map[*ssa.Function]int{}
+
+// envSizeHint: number of SSA values a frame of fn may define (avoids map growth).
+func envSizeHint(fn *ssa.Function) int {
+	if n, ok := envHints[fn]; ok {
+		return n
+	}
+	n := len(fn.Params) + len(fn.FreeVars) + len(fn.Locals)
+	for _, b := range fn.Blocks {
+		n += len(b.Instrs)
+	}
+	if n > 256 {
+		n = 256
+	}
+	envHints[fn] = n
+	return n
 }
